@@ -5,6 +5,7 @@ CONSTANTS
   Keys <- TraceKeys
   Vals <- TraceVals
   NsOf <- TraceNs
+  Refused <- TraceRefused
   RouteMulti = "perkey"
   OwnerShift = 0
   RejectUnhosted = TRUE
